@@ -70,3 +70,32 @@ Theorem C04_heap_inplace_never_stuck : forall h m k inputs masked fails tm0, wf 
   (forall i, In i inputs -> Heap.getT h i <> None) -> exists out, Heap.inplace h m k inputs masked fails = Some out.
 Proof. exact inplace_not_stuck. Qed.
 Print Assumptions C04_heap_inplace_never_stuck.
+
+(* assigning .shape (Model/HeapShape.v): the operations recorded before read placeholders that keep creator, array and
+   consumer set; the setter never gets stuck on a well-formed heap whose target's array and (for a view) parent exist.
+   (The id-order encoding of acyclicity in [wf] is NOT preserved by the setter -- Proofs/HeapShapeP.v gives the two
+   counterexamples -- so histories containing shape assignments are covered by the correspondence, not by the invariant.) *)
+From MG Require Model.HeapShape.
+From MG Require Import Proofs.HeapShapeP Proofs.HeapCor.
+
+Theorem C04_heap_shape_assignment_keeps_old_graph :
+  forall h m h', wf h -> HeapShape.set_shape h m false = Some (Heap.Done h') ->
+  forall o r0, Heap.getO h o = Some r0 ->
+  exists r1, Heap.getO h' o = Some r1 /\ Heap.o_kind r1 = Heap.o_kind r0 /\ Heap.o_keep r1 = Heap.o_keep r0 /\
+    Forall2 (fun v v' => v' = v \/
+                         (Heap.h_next h <= v' /\ exists r rp, Heap.getT h v = Some r /\ Heap.getT h' v' = Some rp /\
+                            Heap.t_creator rp = Heap.t_creator r /\ Heap.t_data rp = Heap.t_data r /\ Heap.t_ops rp = Heap.t_ops r))
+            (Heap.o_vars r0) (Heap.o_vars r1).
+Proof. exact set_shape_old_consumers. Qed.
+Print Assumptions C04_heap_shape_assignment_keeps_old_graph.
+
+Theorem C04_heap_refused_shape_assignment_is_noop : forall h m, HeapShape.set_shape h m true = Some (Heap.Raised h).
+Proof. exact set_shape_fail_noop. Qed.
+Print Assumptions C04_heap_refused_shape_assignment_is_noop.
+
+Theorem C04_heap_reachable_inplace_never_stuck :
+  forall ss h, run_ok Heap.empty_heap ss -> Heap.run Heap.empty_heap ss = Some h ->
+  forall m k inputs masked fails, Heap.getT h m <> None -> (forall i, In i inputs -> Heap.getT h i <> None) ->
+  Heap.inplace h m k inputs masked fails <> None.
+Proof. exact reachable_inplace_never_stuck. Qed.
+Print Assumptions C04_heap_reachable_inplace_never_stuck.
